@@ -9,7 +9,7 @@ literals, in source order, are the constants.
 import ast
 import copy
 
-from translate import reflect, emit, fail, find_func, coq_N, coq_list
+from translate import reflect, emit, fail, find_func, lit, coq_N, coq_list
 
 B32 = "bip_utils/bech32/bech32.py"
 BCH = "bip_utils/bech32/bch_bech32.py"
@@ -41,10 +41,11 @@ def body_consts(rel, cls, fn, shape):
             return ast.Name(id="S", ctx=ast.Load())
 
     got = ast.unparse(ast.Module(body=[Tr().visit(b) for b in body], type_ignores=[]))
-    if got != shape:
+    shapes = [shape] if isinstance(shape, str) else list(shape)
+    if got not in shapes:
         fail(f"{rel}: {cls}.{fn}: body shape not recognised (constants inside it cannot be located safely):\n"
-             f"--- expected\n{shape}\n--- found\n{got}")
-    return ks
+             f"--- expected\n{shapes[0]}\n--- found\n{got}")
+    return ks if isinstance(shape, str) else (shapes.index(got), ks)
 
 
 SH_B32_POLYMOD = ("generator = [K, K, K, K, K]\nchk = K\nfor value in values:\n    top = chk >> K\n"
@@ -68,14 +69,33 @@ SH_TO32 = ("conv_data = Bech32BaseUtils.ConvertBits(data, K, K)\nif conv_data is
            "    raise ValueError(S)\nreturn conv_data")
 SH_FROM32 = ("conv_data = Bech32BaseUtils.ConvertBits(data, K, K, False)\nif conv_data is None:\n"
              "    raise ValueError(S)\nreturn conv_data")
-SH_DECODE = ("if AlgoUtils.IsStringMixed(bech_str):\n    raise ValueError(S)\nbech_str = bech_str.lower()\n"
+_DEC_ASCII = "if not bech_str.isascii():\n    raise ValueError(S)\n"
+_DEC_BODY = ("if AlgoUtils.IsStringMixed(bech_str):\n    raise ValueError(S)\nbech_str = bech_str.lower()\n"
              "sep_pos = bech_str.rfind(sep)\nif sep_pos == -K:\n    raise ValueError(S)\nhrp = bech_str[:sep_pos]\n"
              "if len(hrp) == K or any((ord(x) < K or ord(x) > K for x in hrp)):\n    raise ValueError(S)\n"
              "data_part = bech_str[sep_pos + K:]\n"
-             "if len(data_part) < checksum_len + K or not all((x in Bech32BaseConst.CHARSET for x in data_part)):\n"
+             "if len(data_part) < checksum_len + %s or not all((x in Bech32BaseConst.CHARSET for x in data_part)):\n"
              "    raise ValueError(S)\nint_data = [Bech32BaseConst.CHARSET.find(x) for x in data_part]\n"
              "if not cls._VerifyChecksum(hrp, int_data):\n    raise Bech32ChecksumError(S)\n"
              "return (hrp, int_data[:-checksum_len])")
+# the four admissible shapes of _DecodeBech32: as in the pinned tree, with the non-ASCII guard (repair of F16),
+# with the minimum data length as a defaulted parameter (repair of F11), or with both
+SH_DECODE = [_DEC_BODY % "K", _DEC_ASCII + _DEC_BODY % "K", _DEC_BODY % "min_data_len", _DEC_ASCII + _DEC_BODY % "min_data_len"]
+
+
+def decode_call_min_data(rel, cls, default):
+    """the min_data_len a decoder's Decode passes to cls._DecodeBech32 (4th positional argument), or the default"""
+    f = find_func(rel, cls, "Decode")
+    calls = [n for n in ast.walk(f) if isinstance(n, ast.Call) and isinstance(n.func, ast.Attribute)
+             and n.func.attr == "_DecodeBech32"]
+    if len(calls) != 1 or calls[0].keywords or len(calls[0].args) not in (3, 4):
+        fail(f"{rel}: {cls}.Decode: call of _DecodeBech32 not recognised")
+    if len(calls[0].args) == 3:
+        return default
+    a = calls[0].args[3]
+    if not (isinstance(a, ast.Constant) and isinstance(a.value, int) and not isinstance(a.value, bool) and a.value >= 0):
+        fail(f"{rel}: {cls}.Decode: minimum data length argument is not a literal")
+    return a.value
 
 
 def one_char(s, what):
@@ -183,11 +203,35 @@ def consts():
     ks = body_consts(BASE, "Bech32BaseUtils", "ConvertFromBase32", SH_FROM32)
     d("b32_from_from_bits", "N", ks[0])
     d("b32_from_to_bits", "N", ks[1])
-    ks = body_consts(BASE, "Bech32DecoderBase", "_DecodeBech32", SH_DECODE)
-    if (ks[0], ks[1], ks[4], ks[5]) != (1, 0, 1, 1):
+    which, ks = body_consts(BASE, "Bech32DecoderBase", "_DecodeBech32", SH_DECODE)
+    ascii_guard, has_param = which in (1, 3), which in (2, 3)
+    if (ks[0], ks[1], ks[4]) != (1, 0, 1):
         fail(f"{BASE}: _DecodeBech32: structural constants changed: {ks}")
     d("bech32_hrp_min_cp", "N", ks[2])
     d("bech32_hrp_max_cp", "N", ks[3])
+    f = find_func(BASE, "Bech32DecoderBase", "_DecodeBech32")
+    names = [a.arg for a in f.args.args]
+    if has_param:
+        if names != ["cls", "bech_str", "sep", "checksum_len", "min_data_len"] or len(f.args.defaults) != 1 \
+                or f.args.kwonlyargs or f.args.vararg or f.args.kwarg:
+            fail(f"{BASE}: _DecodeBech32: signature not recognised: {names}")
+        dflt = lit(f.args.defaults[0], BASE, "_DecodeBech32 min_data_len default")
+    else:
+        if names != ["cls", "bech_str", "sep", "checksum_len"] or f.args.defaults:
+            fail(f"{BASE}: _DecodeBech32: signature not recognised: {names}")
+        dflt = ks[5]
+    if not isinstance(dflt, int) or isinstance(dflt, bool) or dflt < 0:
+        fail(f"{BASE}: _DecodeBech32: minimum data length is not a natural number: {dflt!r}")
+    out.append("(* _DecodeBech32: is there an isascii() guard; minimum number of data symbols besides the checksum "
+               "(the default and what each decoder passes) *)")
+    d("bech32_dec_ascii_only", "bool", ascii_guard)
+    d("bech32_decoder_min_data", "nat", decode_call_min_data(B32, "Bech32Decoder", dflt) if has_param else dflt)
+    d("segwit_decoder_min_data", "nat", decode_call_min_data(SEG, "SegwitBech32Decoder", dflt) if has_param else dflt)
+    d("cash_decoder_min_data", "nat", decode_call_min_data(BCH, "BchBech32Decoder", dflt) if has_param else dflt)
+    if not has_param:
+        for rel, cls in ((B32, "Bech32Decoder"), (SEG, "SegwitBech32Decoder"), (BCH, "BchBech32Decoder")):
+            if decode_call_min_data(rel, cls, None) is not None:
+                fail(f"{rel}: {cls}.Decode passes a fourth argument to _DecodeBech32")
     return "\n".join(out) + "\n"
 
 
